@@ -118,6 +118,27 @@ const serU = (u, depth = 0) => {
   for (const k of Object.keys(u)) o[k] = serU(u[k], depth + 1)
   return o
 }
+// shape of an update-path tree: field names kept, list indexes abstracted to '#'
+const shapeU = (u, depth = 0) => {
+  if (u === true) return 'T'
+  if (u === undefined || u === null) return '_'
+  if (typeof u !== 'object' || depth > 8) return '?'
+  const parts = []
+  const proto = Object.getPrototypeOf(u)
+  if (Array.isArray(proto)) {
+    const kinds = new Set()
+    for (let i = 0; i < proto.length; i += 1) kinds.add(i in proto ? shapeU(proto[i], depth + 1) : '_')
+    parts.push('[' + [...kinds].sort().join('|') + ']')
+  }
+  for (const k of Object.keys(u).sort()) parts.push((/^\d+$/.test(k) ? '#' : k) + ':' + shapeU(u[k], depth + 1))
+  return '{' + [...new Set(parts)].join(',') + '}'
+}
+// shape of a node tree: tags only
+const shapeTree = (n, depth = 0) => {
+  if (n instanceof ge.TextNode) return 't'
+  if (depth > 12) return '?'
+  return (n instanceof ge.VirtualNode ? '(' + n.is + ')' : n.is) + '[' + n.childNodes.map((c) => shapeTree(c, depth + 1)).join('') + ']'
+}
 // the protocol's own descent: Z(a,b) = a===true ? true : a ? a[b] : undefined
 const coveredStrict = (U, p) => {
   let cur = U
@@ -260,8 +281,9 @@ function requiredMarks(before, changes, after, indexedLists) {
         if (indexedLists && indexedLists.some((pat) => matchesPattern(path, pat))) {
           // read by index somewhere: every position whose occupant changed, including positions
           // that no longer exist
+          // (strict: the element at such a position is another one now, everything below differs)
           const end = Math.max(arr.length, arr.length - shift)
-          for (let j = at + ins.length; j < end; j += 1) required.push([...path, j])
+          for (let j = at + ins.length; j < end; j += 1) required.strict.push([...path, j])
         }
       }
     } else {
@@ -455,7 +477,10 @@ function wrapContent(content, tag, ctx) {
       st.curData = D
       if (!ctx.quiet) {
         ctx.log.push(`${C ? 'create' : 'update'} ${st.tag} U=${JSON.stringify(serU(U))}`)
-        if (!C) ctx.flushEvents.push({ kind: 'tree', st, U, data: D, batch: ctx.batchStack[ctx.batchStack.length - 1] })
+        if (!C) {
+          ctx.flushEvents.push({ kind: 'tree', st, U, data: D, batch: ctx.batchStack[ctx.batchStack.length - 1] })
+          if (ctx.uShapes.size < 24) ctx.uShapes.add(shapeU(U))
+        }
       }
       const RP = makeRProxy(R, st, ctx)
       let ret
@@ -544,7 +569,8 @@ function ser(n) {
     if (n._$slotValues) {
       // a slot value that is undefined reads the same as one that was never set
       const sv = {}
-      for (const k of Object.keys(n._$slotValues)) if (n._$slotValues[k] !== undefined) sv[k] = n._$slotValues[k]
+      // (key order is insertion history, not content)
+      for (const k of Object.keys(n._$slotValues).sort()) if (n._$slotValues[k] !== undefined) sv[k] = n._$slotValues[k]
       if (Object.keys(sv).length) o.slotValues = sv
     }
   }
@@ -684,6 +710,8 @@ function newCtx(quiet) {
     modelPaths: new WeakMap(),
     flushEvents: [],
     genThrow: null,
+    uShapes: new Set(),
+    treeShapes: new Set(),
     batchStack: [],
     c11: null,
     expectNoPath: false,
@@ -937,6 +965,7 @@ function runWorld(job) {
     noteChildSnapshots()
     rootSt.prevData = clone(curD())
     const liveS = S(root)
+    if (ctx.treeShapes.size < 12) ctx.treeShapes.add(shapeTree(root.getShadowRoot()))
     if (liveS !== lastS) bump(ctx, 'step.flushes_changed_tree')
     lastS = liveS
     ctx.log.push(`tree(${label}) ${liveS}`)
@@ -1126,6 +1155,20 @@ function runWorld(job) {
         const rec = ctx.modelPaths.get(l.node)
         let entry = rec && rec[l.name]
         if (!entry && rec) for (const k of Object.keys(rec)) if (k.replace(/-(.|$)/g, (s) => (s[1] ? s[1].toUpperCase() : '')) === l.name) entry = rec[k]
+        if (entry && entry.path && entry.st === rootSt) {
+          // a write beyond the end of a list would make the runtime grow it with holes; sparse
+          // arrays are outside the workload (deep copies and loops treat holes inconsistently)
+          let cur = curD()
+          let holes = false
+          for (const seg of entry.path) {
+            if (Array.isArray(cur) && typeof seg === 'number' && seg > cur.length) holes = true
+            cur = cur === null || cur === undefined ? undefined : cur[seg]
+          }
+          if (holes) {
+            bump(ctx, 'step.op_skipped')
+            continue
+          }
+        }
         if (l.kind === 'native') {
           l.fn.call(l.node, clone(v))
           bump(ctx, 'fault.model_write')
@@ -1227,6 +1270,8 @@ function runWorld(job) {
   res.counters = ctx.counters
   res.logHash = fnv(ctx.log.join('\n'))
   if (job.wantLog) res.log = ctx.log
+  res.uShapes = [...ctx.uShapes]
+  res.treeShapes = [...ctx.treeShapes]
   res.warnings = warnCount
   return res
 }
